@@ -446,6 +446,8 @@ func c15Body(c *core.Ctx) {
 			}
 		}
 	}
+	// 3b. depth-2 histories over per-family input alphabets, snapshot property, determinism sweep
+	pairSweep(c)
 	// 4. aliasing of the only reference-typed inputs
 	wl := pick(c, 3, 4)
 	for _, lay := range []int{0, -2, 3} {
